@@ -210,6 +210,9 @@ func (dec *fecDecoder) decode(in fecPacket) (recovered [][]byte) {
 				dec.decodeCache = make([][]byte, dec.shardSize)
 				dec.flagCache = make([]bool, dec.shardSize)
 				dec.paws = 0xffffffff / uint32(dec.shardSize) * uint32(dec.shardSize)
+				// shard ids are counted in units of shardSize: re-base the discard horizon,
+				// otherwise every new shard set looks too old (or too new) after the change
+				dec.newestShardId = dec.getShardId(in.seqid())
 				//log.Println("autotune to :", dec.dataShards, dec.parityShards)
 			}
 			// reset shouldTune flag regardless of whether parameters changed
